@@ -28,6 +28,14 @@ func genStress(r *eng.Rng, th bool, race bool) StressParams {
 	if backing != "custom" {
 		p.Children = r.Intn(3)
 	}
+	if r.Chance(1, 3) {
+		// big, unsorted batches with deferred sorting: readers, the merger and
+		// blocked writers compete for the sorter ticket of fresh segments
+		p.Cfg.DeferredSort = true
+		p.Filler = r.Pick(200, 1000, 4000)
+		p.Batches = 15 + r.Intn(25)
+		p.Writers = 2 + r.Intn(2)
+	}
 	if th {
 		p.Batches = 100 + r.Intn(300)
 	}
@@ -35,6 +43,10 @@ func genStress(r *eng.Rng, th bool, race bool) StressParams {
 		p.Batches = 30 + r.Intn(60)
 		p.Extras = true
 		p.Porc = false
+		if p.Filler > 0 {
+			p.Filler = r.Pick(50, 200)
+			p.Batches = 10 + r.Intn(15)
+		}
 	}
 	return p
 }
